@@ -207,16 +207,19 @@ TEXT['C18'] = dict(
 
 TEXT['C14'] = dict(
     category='other',
-    text='Bounded stand-in: the real DiffEqSolver is compared with an independent dense Galerkin assembly (own Gauss-Legendre rule, '
-         'scipy B-splines, per-mode boundary unknown sets) and with manufactured polynomial solutions over degrees, cell counts, '
-         'coefficient functions, boundary mixes and process grids. No contract within reach expresses the weak form without '
-         'restating the sparse assembly (DESIGN C14); the index/frame clauses are planned.',
+    text='Deductive part (one clause: Dirichlet end coefficients stay zero / modes are solved independently): the mode loop of solveEquation is verified, in the trace abstraction with the sparse matrices opaque, to enter the per-mode solver only with both end coefficients of the shared coefficient buffer equal to zero and with the global mode index of the local row - _solveMode carries this as its precondition and havocs the buffer (it writes the coefficient range of its mode, which contains the ends for a Neumann mode), so the loop has to re-establish it before every call; the seeded change (reset hoisted out of the loop) is refuted at that obligation. '
+         'Everything else is the bounded stand-in: the real DiffEqSolver is compared with an independent dense Galerkin assembly (own '
+         'Gauss-Legendre rule, scipy B-splines, per-mode boundary unknown sets) and with manufactured polynomial solutions over '
+         'degrees, cell counts, coefficient functions, boundary mixes and process grids. No contract within reach expresses the weak '
+         'form without restating the sparse assembly (DESIGN C14).',
     note=BOUNDED_NOTE + 'Found and fixed the missing right-hand-side factor of solveEquationForFunction.',
     technique='bounded run-time checking against an independent dense Galerkin solve')
 TEXT['C15'] = dict(
     category='other',
-    text='Bounded stand-in: the real quasi-neutrality pipeline through the distributed layout changes is compared with an explicit '
-         'DFT and a dense per-mode solve (m=0 convention for chi in {0,1}); realness, round trip, equilibrium fixed point.',
+    text='Deductive part (one clause: Dirichlet end coefficients stay zero / modes are solved independently): the mode loop of solveEquation is verified, in the trace abstraction with the sparse matrices opaque, to enter the per-mode solver only with both end coefficients of the shared coefficient buffer equal to zero and with the global mode index of the local row - _solveMode carries this as its precondition and havocs the buffer (it writes the coefficient range of its mode, which contains the ends for a Neumann mode), so the loop has to re-establish it before every call; the seeded change (reset hoisted out of the loop) is refuted at that obligation. '
+         'Everything else is the bounded stand-in: the real quasi-neutrality pipeline through the distributed layout changes is '
+         'compared with an explicit DFT and a dense per-mode solve (m=0 convention for chi in {0,1}); realness, round trip, equilibrium '
+         'fixed point.',
     note=BOUNDED_NOTE + 'FFT round trip identity is the contract of scipy.fftpack (assumed in the deductive plan).',
     technique='bounded run-time checking against an independent mode-by-mode oracle under simulated MPI')
 
